@@ -53,6 +53,18 @@ func (l *IPFSLog) Len() int {
 	return l.Entries.Len()
 }
 
+// sameOrderedEntries tells whether a and b are the same object (values of a
+// non-comparable implementation are never the same).
+func sameOrderedEntries(a, b iface.IPFSLogOrderedEntries) (same bool) {
+	defer func() {
+		if recover() != nil {
+			same = false
+		}
+	}()
+
+	return a == b
+}
+
 func (l *IPFSLog) RawHeads() iface.IPFSLogOrderedEntries {
 	l.lock.RLock()
 	heads := l.heads
@@ -534,6 +546,22 @@ func (l *IPFSLog) Join(otherLog iface.IPFSLog, size int) (iface.IPFSLog, error) 
 	// sees exactly the state the other log had when its heads were read.
 	otherHeads := otherLog.RawHeads()
 	otherEntries := otherLog.GetEntries()
+
+	// A size-bounded merge into the other log is the one operation that makes its
+	// entries shrink: the heads read above may then be missing from the entries read
+	// after them. Every completed write installs a new heads map, so the pair is a
+	// state the other log really had if its heads are still the same object; if they
+	// are not, read the pair again (a few times at most: under a steady stream of
+	// writes the last pair is used as it is, which is what happened before).
+	for i := 0; i < 4; i++ {
+		heads := otherLog.RawHeads()
+		if sameOrderedEntries(heads, otherHeads) {
+			break
+		}
+
+		otherHeads = heads
+		otherEntries = otherLog.GetEntries()
+	}
 
 	l.lock.Lock()
 	defer l.lock.Unlock()
